@@ -83,38 +83,54 @@ Definition replay_event (r : rp) (e : val) : rp :=
    into one still queued; a reader may hand over several queued chunks at once): the byte streams of
    model and implementation are aligned, not their frames. sur = bytes the model has delivered beyond
    what the implementation has. *)
-Record rps := { s_r : rp; s_sur : bytes }.
-Fixpoint pull_model (fuel : nat) (w : N) (need : N) (k : kst) (sur : bytes) : option (kst * bytes) :=
-  if need <=? lenN sur then Some (k, sur) else
+(* s_lost: bytes that were queued when an abort discarded the queue. A body may still hand over chunks it
+   had already taken out of the shared queue before it reports the error (C11 only asks that what is
+   delivered before the error be a prefix of what was written): such data is matched against s_lost. *)
+Record rps := { s_r : rp; s_sur : bytes; s_lost : bytes }.
+(* the model polls while it delivers data, until `need` bytes are there; stops (without consuming the
+   event) at the first poll that would not deliver data *)
+Fixpoint pull_model (fuel : nat) (w : N) (need : N) (k : kst) (sur : bytes) : kst * bytes :=
+  if need <=? lenN sur then (k, sur) else
   match fuel with
-  | O => None
+  | O => (k, sur)
   | S f =>
       match kstep k (C_poll w) with
       | Some (k', RPoll (Some (Some (Some d1)))) => pull_model f w need k' (sur ++ d1)
-      | _ => None
+      | _ => (k, sur)
       end
   end.
 Definition with_k (r : rp) (k : kst) : rp :=
   {| rp_k := k; rp_idx := rp_idx r; rp_applied := rp_applied r; rp_res := rp_res r; rp_fail := rp_fail r |}.
+Definition queued (k : kst) : bytes := match c_st (k_s k) with SOk ready _ _ => concat ready | _ => [] end.
 Definition replay_event2 (x : rps) (e : val) : rps :=
   let r := s_r x in
   match e with
   | VL [VN 3; VN w; VB d] =>                  (* a consumer poll that delivered d *)
-      match pull_model (S (List.length d)) w (lenN d) (rp_k r) (s_sur x) with
-      | Some (k', sur) =>
-          if starts_with d sur
-          then {| s_r := with_k r k'; s_sur := skipn (List.length d) sur |}
-          else {| s_r := add_fail r [finding K_DIVERGE F_X_TRACE (VL [VN 3; VN w; VB (firstn (List.length d) sur)]) (VL [VN 3; VN w; VB d])];
-                  s_sur := s_sur x |}
-      | None => {| s_r := add_fail r [finding K_DIVERGE F_X_TRACE (VB (bs "the model has fewer bytes to deliver")) (VL [VN 3; VN w; VB d])];
-                   s_sur := s_sur x |}
-      end
+      let '(k', sur) := pull_model (S (List.length d)) w (lenN d) (rp_k r) (s_sur x) in
+      if lenN d <=? lenN sur then
+        if starts_with d sur
+        then {| s_r := with_k r k'; s_sur := skipn (List.length d) sur; s_lost := s_lost x |}
+        else {| s_r := add_fail r [finding K_DIVERGE F_X_TRACE (VL [VN 3; VN w; VB (firstn (List.length d) sur)]) (VL [VN 3; VN w; VB d])];
+                s_sur := s_sur x; s_lost := s_lost x |}
+      else
+        (* the model has no more data to deliver: chunks queued at the time of an abort? *)
+        let avail := sur ++ s_lost x in
+        if starts_with d avail
+        then {| s_r := with_k r k'; s_sur := []; s_lost := skipn (List.length d - List.length sur) (s_lost x) |}
+        else {| s_r := add_fail r [finding K_DIVERGE F_X_TRACE (VB (bs "the model has fewer bytes to deliver")) (VL [VN 3; VN w; VB d])];
+                s_sur := s_sur x; s_lost := s_lost x |}
   | VL [VN 3; VN w; res] =>                   (* Pending, end or error: nothing may be outstanding *)
       match s_sur x with
-      | _ :: _ => {| s_r := add_fail r [finding K_DIVERGE F_X_TRACE (VB (bs "the model has delivered more bytes")) (VL [VN 3; VN w; res])]; s_sur := s_sur x |}
-      | [] => {| s_r := replay_event r e; s_sur := [] |}
+      | _ :: _ => {| s_r := add_fail r [finding K_DIVERGE F_X_TRACE (VB (bs "the model has delivered more bytes")) (VL [VN 3; VN w; res])];
+                     s_sur := s_sur x; s_lost := s_lost x |}
+      | [] => {| s_r := replay_event r e; s_sur := []; s_lost := s_lost x |}
       end
-  | _ => {| s_r := replay_event r e; s_sur := s_sur x |}
+  | VL [VN 0; VN k] =>                        (* a producer critical section: an abort discards what is queued *)
+      let is_abort := (k =? rp_idx r) && negb (rp_applied r) &&
+                      match k_prog (rp_k r) with OAbort :: _ => true | _ => false end in
+      {| s_r := replay_event r e; s_sur := s_sur x;
+         s_lost := if is_abort then s_lost x ++ queued (rp_k r) else s_lost x |}
+  | _ => {| s_r := replay_event r e; s_sur := s_sur x; s_lost := s_lost x |}
   end.
 
 (* ---- oracles over the executed trace alone (no model state): the outcome clauses of C10 / C11 ---- *)
@@ -217,8 +233,8 @@ Definition run_sched (v : val) : val :=
           let rf := s_r (fold_left (fun x e => let x' := replay_event2 x e in
                                           if j_holds (rp_k (s_r x')) then x'
                                           else {| s_r := add_fail (s_r x') [xclause "parked-consumer-with-data-or-termination-pending-and-no-wake-in-flight"];
-                                                  s_sur := s_sur x' |})
-                              trace {| s_r := r0; s_sur := [] |}) in
+                                                  s_sur := s_sur x'; s_lost := s_lost x' |})
+                              trace {| s_r := r0; s_sur := []; s_lost := [] |}) in
           let tag := match k_cons (rp_k rf) with CDone => bs "consumer-done" | CParked _ => bs "consumer-parked" | CRun => bs "consumer-running" end
                      ++ (match c_st (k_s (rp_k rf)) with SErr => bs ":err" | SFused => bs ":fused" | SOk _ _ true => bs ":dropped" | SOk _ _ false => bs ":open" end) in
           VL (finding K_TAG tag (VL []) (VL [])
